@@ -11,10 +11,12 @@ import (
 	"fmt"
 	"math/rand"
 	"os"
+	"sort"
 	"strings"
 	"sync/atomic"
 	"time"
 
+	"github.com/samsarahq/thunder/batch"
 	"github.com/samsarahq/thunder/diff"
 	"github.com/samsarahq/thunder/graphql"
 	"github.com/samsarahq/thunder/graphql/schemabuilder"
@@ -138,6 +140,30 @@ func buildSpecialSchema() (*graphql.Schema, error) {
 		}
 		return fmt.Sprintf("detail-%d", it.Id), nil
 	})
+	// field funcs that return nothing but an error (Boolean fields), one object
+	// at a time and as batch functions
+	it.FieldFunc("ok", func(ctx context.Context, it *spItem) error {
+		return failHook(ctx, "SpItem", it.Id, "ok", false)
+	})
+	okBatch := func(field string) func(ctx context.Context, items map[batch.Index]*spItem) error {
+		return func(ctx context.Context, items map[batch.Index]*spItem) error {
+			ids := make([]int, 0, len(items))
+			for _, it := range items {
+				ids = append(ids, int(it.Id))
+			}
+			sort.Ints(ids)
+			for _, id := range ids {
+				if err := failHook(ctx, "SpItem", int64(id), field, true); err != nil {
+					return err
+				}
+			}
+			return nil
+		}
+	}
+	it.BatchFieldFunc("okBatch", okBatch("okBatch"))
+	it.BatchFieldFuncWithFallback("okFallback", okBatch("okFallback"), func(ctx context.Context, it *spItem) error {
+		return failHook(ctx, "SpItem", it.Id, "okFallback", false)
+	}, func(ctx context.Context) bool { b, _ := ctx.Value(spZeroKey{}).(bool); return b })
 	it.FieldFunc("heavy", func(ctx context.Context, it *spItem) (string, error) {
 		if err := failHook(ctx, "SpItem", it.Id, "heavy", false); err != nil {
 			return "", err
@@ -181,11 +207,21 @@ func makeSpecialScenario(r *rand.Rand) (*scenario, bool, bool) {
 			}
 			out += " " + ha + "heavy"
 		}
+		var oks []string
+		for _, f := range []string{"ok", "okBatch", "okFallback"} {
+			if r.Intn(3) == 0 {
+				oks = append(oks, f)
+				out += " " + f
+			}
+		}
 		for k, id := range ids {
 			p := append(append([]string{}, base...), "edges", fmt.Sprint(k), "node")
 			add(deps, "SpItem", id, "detail", append(p, dk)...)
 			if heavy {
 				add(deps, "SpItem", id, "heavy", append(p, hk)...)
+			}
+			for _, f := range oks {
+				add(deps, "SpItem", id, f, append(p, f)...)
 			}
 		}
 		return out
